@@ -19,9 +19,9 @@ from .core import (
     to_z3,
 )
 
-Z3_TIMEOUT_MS = int(os.environ.get("PYVC_Z3_TIMEOUT_MS", "20000"))
+Z3_TIMEOUT_MS = int(os.environ.get("PYVC_Z3_TIMEOUT_MS", "40000"))
 BRANCH_TIMEOUT_MS = int(os.environ.get("PYVC_BRANCH_TIMEOUT_MS", "2000"))
-CVC5_TIMEOUT_S = int(os.environ.get("PYVC_CVC5_TIMEOUT_S", "30"))
+CVC5_TIMEOUT_S = int(os.environ.get("PYVC_CVC5_TIMEOUT_S", "45"))
 CVC5_BIN = "/usr/bin/cvc5"
 
 
